@@ -1,7 +1,7 @@
 """C13 — see props/cachefile.py (operation-list tie, oracles) and DESIGN.md section 5."""
 import cachefile
 
-CONE = ["Model/CacheFs.v", "Model/FileFlow.v", "Proofs/CacheProofs.v", "Model/Exec.v", "Model/StepExec.v", "Model/FileExec.v", "Model/FileSpec.v", "Proofs/FileSafe.v", "Model/FileLiveSpec.v", "Proofs/FileLive.v", "Proofs/Refute.v"]
+CONE = ["Model/CacheFs.v", "Model/FileFlow.v", "Proofs/CacheProofs.v", "Model/Exec.v", "Model/StepExec.v", "Model/FileExec.v", "Model/FileSpec.v", "Proofs/FileSafe.v", "Model/FileLiveSpec.v", "Proofs/FileLive.v", "Model/FileMeasureSpec.v", "Proofs/FileMeasure.v", "Proofs/Refute.v"]
 
 
 def progress_on_traces(res, hits):
